@@ -2,6 +2,7 @@ package props
 
 import (
 	"fmt"
+	"runtime/debug"
 
 	"github.com/fluhus/biostuff/formats/newick"
 
@@ -9,7 +10,51 @@ import (
 	"verif/mc/engine/enum"
 )
 
-func init() { register("C19", "exploration", runC19) }
+func init() {
+	register("C19", "exploration", runC19)
+	Hidden["deep-C19"] = deepBodyC19
+}
+
+// deepBodyC19 runs in a subprocess with the goroutine stack capped at 16 MiB: a traversal that
+// recurses as deep as the tree (about 50-100 bytes per level) dies on a chain of 10^6 nodes, an
+// explicit-stack traversal needs a few KiB. The expected order is computed without recursion.
+func deepBodyC19() int {
+	debug.SetMaxStack(16 << 20)
+	const n = 1000000
+	nodes := make([]*newick.Node, n)
+	for i := range nodes {
+		nodes[i] = &newick.Node{}
+	}
+	for i := 0; i < n-1; i++ {
+		nodes[i].Children = []*newick.Node{nodes[i+1]}
+	}
+	i := 0
+	for x := range nodes[0].PreOrder() {
+		if i >= n || x != nodes[i] {
+			fmt.Println("PreOrder on a chain of 10^6 nodes deviates at position", i)
+			return 1
+		}
+		i++
+	}
+	if i != n {
+		fmt.Println("PreOrder yielded", i, "nodes, want", n)
+		return 1
+	}
+	i = 0
+	for x := range nodes[0].PostOrder() {
+		if i >= n || x != nodes[n-1-i] {
+			fmt.Println("PostOrder on a chain of 10^6 nodes deviates at position", i)
+			return 1
+		}
+		i++
+	}
+	if i != n {
+		fmt.Println("PostOrder yielded", i, "nodes, want", n)
+		return 1
+	}
+	fmt.Println("deep traversal ok under a 16 MiB stack cap")
+	return 0
+}
 
 // buildTree builds a tree from a pre-order child-count code and returns the nodes in pre-order.
 func buildTree(code []int) (*newick.Node, []*newick.Node) {
@@ -148,6 +193,20 @@ func runC19(r *core.Run) {
 		func(c c19Tree) core.Outcome {
 			root, nodes := buildTree(c.Code)
 			return checkTraversal(root, nodes, fmt.Sprint("tree ", c.Code))
+		})
+
+	core.Clause(r, "no-recursion", core.Opts{Serial: true, Rule: "a chain of 10^6 nodes traversed in a subprocess whose goroutine stack is capped at 16 MiB (debug.SetMaxStack): any recursion that is as deep as the tree overflows, an explicit stack does not; order checked against the chain itself; non-trivial = all"},
+		func(emit func(c19Big) bool) { emit(c19Big{"chain-under-16MiB-stack-cap", 1000000}) },
+		func(c c19Big) core.Outcome {
+			out, code, err := runHidden(r, "deep-C19", false)
+			if err != nil {
+				r.HarnessError("deep traversal subprocess could not be built or run: %v\n%s", err, out)
+				return core.OK("harness-error", false)
+			}
+			if code != 0 {
+				return core.Failf("traversal of a chain of 10^6 nodes under a 16 MiB goroutine stack failed (exit %d): %s", code, tailLines(out, 6))
+			}
+			return core.Outcome{Class: "ok", Nontrivial: true, Evals: 2}
 		})
 
 	NR := core.Pick(r, 6, 8)
